@@ -68,8 +68,8 @@ static inline void tx_ham24(uint8_t *p, unsigned d)
 /* ------------------------------------------------------------------ */
 /* 9.x packets.  A packet here is the 42 bytes after the framing code. */
 
-enum { PK_HEADER, PK_FILLER, PK_ROW, PK_X26, PK_X27, PK_X28, PK_830, PK_KINDS };
-static const char *const pk_kind_name[PK_KINDS] = { "header", "filler", "row", "x26", "x27", "x28", "830" };
+enum { PK_HEADER, PK_FILLER, PK_ROW, PK_X26, PK_X27, PK_X28, PK_830, PK_MIP, PK_KINDS };
+static const char *const pk_kind_name[PK_KINDS] = { "header", "filler", "row", "x26", "x27", "x28", "830", "mip" };
 
 struct ttx_pkt {
 	uint8_t d[42];
